@@ -315,3 +315,26 @@ M('C14', 'start-cost-one', 'pathfinding.py', "        d_from_start[start_py, sta
 T('C14', 'pixel-id-round', 'pathfinding.py', "    py = int(abs(point[0] - y_coords[0]) / cellsize_y + 0.5)", "    py = int(round(abs(point[0] - y_coords[0]) / cellsize_y))")
 T('C14', 'bounds-ge', 'pathfinding.py', "            if neighbor_y > height - 1 or neighbor_y < 0 \\\n                    or neighbor_x > width - 1 or neighbor_x < 0:", "            if neighbor_y >= height or neighbor_y < 0 \\\n                    or neighbor_x >= width or neighbor_x < 0:")
 T('C14', 'heuristic-zero', 'pathfinding.py', "    return _distance(x1, y1, x2, y2)\n\n\n@ngjit\ndef _min_cost_pixel_id", "    return 0.0\n\n\n@ngjit\ndef _min_cost_pixel_id")
+
+# ------------------------------------------------------------------------------------------------ C19
+M('C19', 'euclid-plus', 'proximity.py', "    x = x1 - x2\n    y = y1 - y2\n    return np.sqrt(x * x + y * y)", "    x = x1 + x2\n    y = y1 - y2\n    return np.sqrt(x * x + y * y)", 'V1')
+M('C19', 'manhattan-no-abs', 'proximity.py', "    return abs(x) + abs(y)", "    return abs(x) + y", 'V1')
+M('C19', 'haversine-lat-from-x', 'proximity.py', "        np.radians(y1),\n        np.radians(x1),\n        np.radians(y2),\n        np.radians(x2),", "        np.radians(x1),\n        np.radians(y1),\n        np.radians(x2),\n        np.radians(y2),", 'V1')
+M('C19', 'haversine-guard-lon-90', 'proximity.py', "    if x2 > 180 or x2 < -180:", "    if x2 > 90 or x2 < -90:", 'V2')
+M('C19', 'haversine-guard-one-sided', 'proximity.py', "    if y1 > 90 or y1 < -90:", "    if y1 > 90:", 'V2')
+M('C19', 'haversine-radius', 'proximity.py', "radius: float = 6378137", "radius: float = 6371000", 'V2')
+M('C19', 'dispatch-manhattan-for-gc', 'proximity.py', "    elif metric == GREAT_CIRCLE:\n        d = great_circle_distance(x1, x2, y1, y2)", "    elif metric == GREAT_CIRCLE:\n        d = manhattan_distance(x1, x2, y1, y2)", 'V3')
+M('C19', 'dispatch-args-order', 'proximity.py', "        d = euclidean_distance(x1, x2, y1, y2)", "        d = euclidean_distance(x1, y1, x2, y2)", 'V3')
+M('C19', 'unit-km-100', 'convolution.py', "KILOMETER = 1000", "KILOMETER = 100", 'U1')
+M('C19', 'unit-alias-mismatch', 'convolution.py', "'feet': FOOT, 'foot': FOOT, 'ft': FOOT,", "'feet': FOOT, 'foot': FOOT, 'ft': METER,", 'U1')
+M('C19', 'distance-zero-allowed', 'convolution.py', "    if distance <= 0:", "    if distance < 0:", 'U2')
+M('C19', 'ellipse-y-not-squared', 'convolution.py', "ellipse = (x * half_h) ** 2 + (y * half_w) ** 2 <= (half_w * half_h) ** 2", "ellipse = (x * half_h) ** 2 + (y * half_w) <= (half_w * half_h) ** 2", 'E1')
+M('C19', 'ellipse-halves-swapped', 'convolution.py', "ellipse = (x * half_h) ** 2 + (y * half_w) ** 2 <= (half_w * half_h) ** 2", "ellipse = (x * half_w) ** 2 + (y * half_h) ** 2 <= (half_w * half_h) ** 2", 'E1')
+M('C19', 'ellipse-grid-even', 'convolution.py', "x = np.linspace(-half_w, half_w, 2 * half_w + 1)", "x = np.linspace(-half_w, half_w, 2 * half_w)", 'E1')
+M('C19', 'ellipse-x-from-height', 'convolution.py', "x = np.linspace(-half_w, half_w, 2 * half_w + 1)", "x = np.linspace(-half_h, half_h, 2 * half_h + 1)", 'E1')
+M('C19', 'circle-half-h-from-x', 'convolution.py', "    kernel_half_h = int(r / cellsize_y)", "    kernel_half_h = int(r / cellsize_x)", 'E3')
+M('C19', 'annulus-pad-uneven', 'convolution.py', "pad_width=((pad_vals[0] // 2, pad_vals[0] // 2),", "pad_width=((pad_vals[0] // 2, pad_vals[0] - pad_vals[0] // 2 - 1),", 'E4')
+M('C19', 'custom-kernel-even-ok', 'convolution.py', "    if (rows % 2 == 0 or cols % 2 == 0):", "    if (rows % 2 == 0 and cols % 2 == 0):", 'E5')
+T('C19', 'euclid-pow', 'proximity.py', "    return np.sqrt(x * x + y * y)", "    return (x ** 2 + y ** 2) ** 0.5")
+T('C19', 'haversine-dlon-reversed', 'proximity.py', "    dlon = lon2 - lon1", "    dlon = lon1 - lon2")
+T('C19', 'ellipse-le-rearranged', 'convolution.py', "ellipse = (x * half_h) ** 2 + (y * half_w) ** 2 <= (half_w * half_h) ** 2", "ellipse = (half_w * half_h) ** 2 >= (y * half_w) ** 2 + (half_h * x) ** 2")
